@@ -42,7 +42,7 @@ def run(tier, seed):
         'C01', tier, seed, sessprop.wrapper('Mon_C01'), 'Mon_C01', instances(tier), KINDS,
         rule='all conforming frame sequences of the bounded server automaton x 3 read segmentations (model chunking, one byte per '
              'read, seeded random cuts), plus the payload-length grid; non-trivial = distinct frame sequences with a fragmented message',
-        nontrivial=nontrivial, anchors=anchors, variants=variants, extra=lambda run: c01grid.add(run, tier))
+        nontrivial=nontrivial, need_actions=('Recv', 'FeedNext', 'Chunk', 'CloseEcho'), anchors=anchors, variants=variants, extra=lambda run: c01grid.add(run, tier))
     need = {'text', 'binary', 'ping', 'pong', 'closing', 'control_between_fragments', 'empty_fragment'}
     missing = sorted(need - seen)
     return r.finish(vacuous=('never exercised: %s' % missing) if missing else None)
